@@ -1,5 +1,5 @@
 # replay of a bounded stand-in violation (C06): re-run native/c06_measure.py
 import sys
-print('post-selected heterodyne on mode 1 of 2: gaussian and bosonic conditional states differ (max 0.0406)')
+print('bosonic MeasureThreshold on mode 1, outcome 1 (probability 0.276): mode 0 has (<n>, <x>, <p>) = [0.4458, 0.9426, 0.1606], the conditional state has [0.3615, 0.6787, 0.3409]')
 print('REPLAY-VIOLATION')
 sys.exit(1)
